@@ -77,6 +77,7 @@ type lexer struct {
 	cmds     []ast.Command
 	comments []*ast.Comment
 	cmdSubst rune
+	closed   bool
 	token    chan ast.Node
 	done     chan struct{}
 
@@ -646,6 +647,11 @@ func (l *lexer) lexToken(tok int) action {
 		}
 	case ')', RAE:
 		if l.cmdSubst != 0 && len(l.stack) == 1 {
+			if l.cmdSubst == '`' && !l.closed {
+				// not the closing back-quote
+				l.error(l.pos, "syntax error: unexpected '"+ops[tok]+"'")
+				break
+			}
 			l.emit(tok)
 			l.stack = nil
 			break
@@ -959,6 +965,7 @@ func (l *lexer) scanRawToken() int {
 					return WORD
 				}
 				if len(l.stack) != 0 {
+					l.closed = true
 					return ')'
 				}
 				return '('
